@@ -81,4 +81,51 @@ theorem head_check_keeps_newest (ops : List Op) (w : WfOps ops) (c : Nat) (t : L
       (topicFrames (after ops) c t).drop ((topicFrames (after ops) c t).length - k) :=
   checkHead_topic (after_inv w) ht hc k
 
+/-- streaming read path, clock moving while the scan is under way: a frame whose time has passed
+    when the scan examines it is not returned - whatever the clock showed when the scan began -
+    and a frame that is returned had not expired at that moment -/
+theorem scan_judges_each_frame_by_the_clock_then (clock : Nat → Nat) (j : Nat) (fs : List Frame) :
+    ∀ f ∈ scanClock clock j fs, ∃ k, fs[k]? = some f ∧ f.expired (clock (j + k)) = false := by
+  induction fs generalizing j with
+  | nil => intro f hf; simp [scanClock] at hf
+  | cons g rest ih =>
+    intro f hf
+    unfold scanClock at hf
+    split at hf
+    · obtain ⟨k, hk, he⟩ := ih (j + 1) f hf
+      exact ⟨k + 1, by simpa using hk, by rw [← he]; congr 2; omega⟩
+    · rename_i hne
+      rcases List.mem_cons.mp hf with rfl | hf
+      · exact ⟨0, rfl, by simpa using hne⟩
+      · obtain ⟨k, hk, he⟩ := ih (j + 1) f hf
+        exact ⟨k + 1, by simpa using hk, by rw [← he]; congr 2; omega⟩
+
+/-- … and nothing that has not expired is lost: the scan returns, in order, exactly the frames
+    that are unexpired when it reaches them -/
+theorem scan_keeps_unexpired (clock : Nat → Nat) (j : Nat) (fs : List Frame) :
+    (scanClock clock j fs).Sublist fs ∧
+    ∀ k f, fs[k]? = some f → f.expired (clock (j + k)) = false → f ∈ scanClock clock j fs := by
+  induction fs generalizing j with
+  | nil => exact ⟨by simp [scanClock], by intro k f h; simp at h⟩
+  | cons g rest ih =>
+    obtain ⟨hs, hm⟩ := ih (j + 1)
+    constructor
+    · unfold scanClock; split
+      · exact List.Sublist.cons _ hs
+      · exact List.Sublist.cons_cons _ hs
+    · intro k f hk he
+      unfold scanClock
+      cases k with
+      | zero =>
+        simp only [List.getElem?_cons_zero, Option.some.injEq] at hk
+        subst hk
+        simp only [Nat.add_zero] at he
+        simp [he]
+      | succ k =>
+        simp only [List.getElem?_cons_succ] at hk
+        have := hm k f hk (by rw [← he]; congr 2; omega)
+        split
+        · exact this
+        · exact List.mem_cons_of_mem _ this
+
 end Xs.C09
